@@ -248,34 +248,44 @@ Fixpoint item_text (i : item) : string :=
   | IExpr true g => "(" ++ seq g ++ ")"
   | IExpr false g => seq g
   | IList els =>
-      "[" ++ (fix go (first : bool) (l : list lelem) : string :=
+      (* the comma follows its item directly (only blanks may stand between an item and its comma);
+         comment lines come after the comma; an end-of-line comment closes the line *)
+      "[" ++ (fix go (l : list lelem) : string :=
                 match l with
                 | [] => ""
-                | LCom s :: r => nl ++ s ++ nl ++ go first r
+                | LCom s :: r => nl ++ s ++ nl ++ go r
                 | LItem g eol :: r =>
-                    (if first then "" else ", ") ++ seq g ++ ocom eol " " ++
-                    match eol with Some _ => nl | None => "" end ++ go false r
-                end) true els ++ "]"
+                    seq g ++
+                    (if (fix more (l : list lelem) : bool :=
+                           match l with [] => false | LCom _ :: r' => more r' | LItem _ _ :: _ => true end) r
+                     then ", " else "") ++
+                    match eol with Some c => " " ++ c ++ nl | None => "" end ++ go r
+                end) els ++ "]"
   | IRecord els =>
-      "{" ++ (fix go (first : bool) (l : list relem) : string :=
+      "{" ++ (fix go (l : list relem) : string :=
                 match l with
                 | [] => ""
-                | RCom s :: r => nl ++ s ++ nl ++ go first r
-                | RPairI k v eol :: r =>
-                    (if first then "" else ", ") ++
-                    match k with
-                    | RKId s => s
-                    | RKStr s => dq ++ s ++ dq
-                    | RKDyn inner => "[" ++ seq inner ++ "]"
-                    end ++ ": " ++ seq v ++ ocom eol " " ++
-                    match eol with Some _ => nl | None => "" end ++ go false r
-                | RShortI s eol :: r =>
-                    (if first then "" else ", ") ++ s ++ ocom eol " " ++
-                    match eol with Some _ => nl | None => "" end ++ go false r
-                | RSpreadI g eol :: r =>
-                    (if first then "" else ", ") ++ seq g ++ ocom eol " " ++
-                    match eol with Some _ => nl | None => "" end ++ go false r
-                end) true els ++ "}"
+                | RCom s :: r => nl ++ s ++ nl ++ go r
+                | x :: r =>
+                    match x with
+                    | RPairI k v _ =>
+                        match k with
+                        | RKId s => s
+                        | RKStr s => dq ++ s ++ dq
+                        | RKDyn inner => "[" ++ seq inner ++ "]"
+                        end ++ ": " ++ seq v
+                    | RShortI s _ => s
+                    | RSpreadI g _ => seq g
+                    | RCom _ => ""
+                    end ++
+                    (if (fix more (l : list relem) : bool :=
+                           match l with [] => false | RCom _ :: r' => more r' | _ :: _ => true end) r
+                     then ", " else "") ++
+                    match x with
+                    | RPairI _ _ (Some c) | RShortI _ (Some c) | RSpreadI _ (Some c) => " " ++ c ++ nl
+                    | _ => ""
+                    end ++ go r
+                end) els ++ "}"
   | ILambda args body => "(" ++ sjoin ", " (map arg_text args) ++ ") => " ++ seq body
   | ICond c t e => "if " ++ seq c ++ " then " ++ seq t ++ " else " ++ seq e
   | IDo els =>
